@@ -89,7 +89,8 @@ Lemma clock_split_exact_lemma (h m : nat) :
   ns_of_hours (clock_hours h m) = Z.of_nat ((h * 60 + m) * 60) * 1000000000.
 Proof.
   intros Hh Hm. pose proof clock_split_all as H. rewrite forallb_forall in H.
-  specialize (H (h, m)). apply Z.eqb_eq. apply H. apply in_prod; apply in_seq; lia.
+  assert (In (h, m) (list_prod (seq 0 24) (seq 0 60))) as Hin by (apply in_prod; apply in_seq; lia).
+  specialize (H (h, m) Hin). unfold clock_ok in H. cbn [fst snd] in H. apply Z.eqb_eq in H. exact H.
 Qed.
 
 (* ... so the integer nanosecond difference of two Timestamps with clock times is the calendar difference *)
